@@ -140,3 +140,19 @@ def design_mc(res, module, cfg, trace_file=None, what="", workers=8, timeout=120
             raise vlib.Machinery(f"{module}/{cfg} failed: " + r["stdout"][-1500:])
     res.clause("DesignLevel_" + module, 1, 0 if ok else 1)
     return ok
+
+
+def design_proof(res, module, what=""):
+    """TLAPS proof of a design-level theorem (spec/proofs/<module>.tla) - unbounded, unlike the TLC run of the same
+    property.  A failed obligation is a machinery failure of the proof script or a changed specification: reported as a
+    violation of clause DesignProof_<module> only if tlapm ran and left obligations unproved."""
+    r = vlib.run_tlapm(module)
+    res.mc.append({"module": "proofs/" + module, "config": "tlapm", "what": what, "distinct_states": 0, "states": 0,
+                   "obligations_proved": r["obligations"], "ok": r["ok"]})
+    if not r["ok"]:
+        if "obligations failed" in r["stdout"] or "obligation failed" in r["stdout"]:
+            res.violation("DesignProof_" + module, {"id": module, "tlapm": r["stdout"][-2500:]})
+        else:
+            raise vlib.Machinery(f"tlapm {module} failed: " + r["stdout"][-1500:])
+    res.clause("DesignProof_" + module, 1, 0 if r["ok"] else 1)
+    return r["ok"]
